@@ -11,8 +11,10 @@ encoding as a parameter, and which function of the existing models is the read s
 * Streamable HTTP + JSON bodies — `HttpDecide.run` (C11); free: the id POSTed, any accepted
   status, session header, the reply as an object or as a one-element array;
 * Streamable HTTP + SSE bodies — `HttpDecide.run` over `Sse.renderText` (C11); free: event field
-  absent / `message` / `response`, optional spaces, comment / `id:` / `retry:` lines, LF / CRLF per
-  line, how the body ends;
+  absent / `message` / `response`, optional spaces, comment / `id:` / `retry:` lines before every
+  field line and before the blank line, events that carry no message (data-less keep-alives,
+  comment-only events, extra blank lines, typed non-message events with data) before, between and
+  after the message events, LF / CRLF per line, how the body ends;
 * legacy SSE — `SseReq.runChunks` then `SseReq.run` (C12); free: events before the first message,
   LF / CRLF per event, the cutting of the stream into chunks, and where the `202` of each POST
   falls among the stream events of its exchange (the race of C12).
@@ -60,8 +62,11 @@ theorem c15_httpJson_transcript (dec : HttpDecide.Dec μ) (W : Wire σ μ) (s0 :
   httpJson_transcript dec W s0 conv choices hexp hst hdec
 
 /-- **Streamable HTTP, SSE bodies.**  One POST per exchange, answered with an event-stream body
-holding one event per message (notifications, then the reply) in ANY conformant rendering: the
-read stream is exactly the conversation, notifications before their reply. -/
+holding one event per message (notifications, then the reply) in ANY conformant rendering, with
+ANY events that carry no message — data-less keep-alives, comment-only events, extra blank lines,
+typed non-message events with data — before, between and after them (`EvChoice.before`,
+`SseBodyChoice.trailing`; `…ok` = those events are `isNoise` and every ignored line is well-formed):
+the read stream is exactly the conversation, notifications before their reply. -/
 theorem c15_httpSse_transcript (dec : HttpDecide.Dec μ) (W : Wire σ μ) (s0 : Option String)
     (conv : List (Exchange σ)) (choices : List SseBodyChoice)
     (hok : ∀ c ∈ choices, c.ok = true)
@@ -131,11 +136,12 @@ theorem c15_real_codec_stdio (st : Style) (m : Msg) (hb : Built m) (hw : wfMsg m
     StdioDecodes realStdio (rpcWire st) m :=
   real_stdio_decodes st m hb hw
 
-/-- spelled out on the reader's own vocabulary (`good` of C05) -/
-theorem c15_real_codec_stdio_good (st : Style) (m : Msg) (crlf : Bool) (hb : Built m) (hw : wfMsg m = true) :
+/-- spelled out on the reader itself: the line of `m` (LF or CRLF terminated, batching on or off)
+makes the reader deliver exactly `view m` -/
+theorem c15_real_codec_stdio_line (st : Style) (m : Msg) (batching : Bool) (hb : Built m) (hw : wfMsg m = true) :
     CleanWire (enc st (emit m)) ∧
-    Verif.Props.C05.good realStdio ⟨codes (enc st (emit m)), crlf⟩ = some (view m) :=
-  ⟨(real_stdio_decodes st m hb hw).1, stdio_good realStdio (rpcWire st) m crlf (real_stdio_decodes st m hb hw)⟩
+    StdioIn.delivered (StdioIn.processLine realStdio batching (codes (enc st (emit m)))) = [view m] :=
+  ⟨(real_stdio_decodes st m hb hw).1, stdio_line realStdio (rpcWire st) m batching (real_stdio_decodes st m hb hw)⟩
 
 /-- **Streamable HTTP.**  The same for `response.json()` + `JSONRPCMessage.model_validate`, for the
 object and for the one-element array.  `ObjResult`: a result is a JSON object (the unified message
@@ -253,12 +259,26 @@ example : httpObserve realHttp none (zipD PostChoice.dflt (jsonPost (rpcWire std
         simp only [List.mem_cons, List.not_mem_nil, or_false] at hc
         rcases hc with rfl | rfl <;> decide)
 
-/-- … SSE bodies: no event field and no space after `data:` for the notification, a comment and
-`event: response` for the reply, CRLF on some lines, end of file inside the last line -/
-example : httpObserve realHttp none (zipD SseBodyChoice.dflt (sseBodyPost (rpcWire orjsonStyle)) exConv
-      [⟨⟨some (.str "r-1"), 200, none, false⟩,
-        [⟨.absent, Sse.dflt, ⟨false, []⟩⟩, ⟨.response, ⟨true, [.comment " c".toList]⟩, Sse.dflt⟩],
-        [true, false, true], .noEol⟩])
+/-- … SSE bodies: a data-less `ping` keep-alive and a comment-only event first, no event field and
+no space after `data:` for the notification, a typed `endpoint` event with data in between, a
+comment, `event: response` and an `id:` line after the data for the reply, an extra blank line at
+the end, CRLF on some lines, end of file inside the last line -/
+def exBody : SseBodyChoice :=
+  { post := ⟨some (.str "r-1"), 200, none, false⟩,
+    evs := [
+      { name := .absent, nameChoice := Sse.dflt, dataChoice := ⟨false, []⟩,
+        before := [{ name := some "ping".toList, data := [], nameChoice := Sse.dflt, dataChoices := [] },
+                   { name := none, data := [], nameChoice := Sse.dflt, dataChoices := [], after := [.comment " ka".toList] }] },
+      { name := .response, nameChoice := ⟨true, [.comment " c".toList]⟩, dataChoice := Sse.dflt,
+        after := [.idField true "7".toList],
+        before := [{ name := some "endpoint".toList, data := ["{\"jsonrpc\":\"2.0\",\"method\":\"x\"}".toList],
+                     nameChoice := Sse.dflt, dataChoices := [] }] }],
+    eols := [true, false, true], tail := .noEol,
+    trailing := [{ name := none, data := [], nameChoice := Sse.dflt, dataChoices := [] }] }
+
+example : exBody.ok = true := by decide
+
+example : httpObserve realHttp none (zipD SseBodyChoice.dflt (sseBodyPost (rpcWire orjsonStyle)) exConv [exBody])
     = [.msg (view exNotif), .msg (view exReply), .msg (view exError)] :=
   (c15_real_transcript orjsonStyle exConv exConv_ok).2.2.1 none _ (by
     intro c hc
